@@ -23,6 +23,7 @@ DEVS = {
     "IndexLocalClaim": "D_C11_IndexLocalClaim",
     "Resurrect": "D_C11_PatchExpiredResurrects",
     "RefileGap": "D_C11_RefileGap",
+    "PatchResurrects": "D_C11_PatchFieldsResurrects",
 }
 # witness name -> (deviation, alphabet level of MC_Claims, invariant the as-built model must break)
 WITNESSES = {
@@ -32,6 +33,7 @@ WITNESSES = {
     "Resurrect": ("Resurrect", 14, "NoResurrection"),
     "ResurrectGhost": ("Resurrect", 15, "NoResurrection"),
     "RefileGap": ("RefileGap", 16, "IndexOrder"),
+    "PatchResurrects": ("PatchResurrects", 17, "NoResurrection"),
 }
 INVS = "Disjoint MatchedAtClaim NoResurrection AtMostN IndexOrder NoGhost LockOK"
 
@@ -89,7 +91,7 @@ def conv_iop(o):
 
 
 def pc_want(pc, kind, fresh=False):
-    return {"lock": "enter", "walk": "exit", "ret": "done", "done": "done", "idle": "done", "rx": "blocked", "gap": "gap"}.get(
+    return {"lock": "enter", "walk": "exit", "ret": "done", "done": "done", "idle": "done", "rx": "blocked", "gap": "gap", "do": "fetch"}.get(
         pc, "selected" if (pc == "fin" and kind == "pe" and fresh) else "")
 
 
@@ -115,6 +117,9 @@ def witness_to_schedule(name, wfile):
             pending[p] = conv_req(c["q"])
         elif a == "ICall":
             pending[p] = conv_iop(c["o"])
+            if pending[p]["kind"] == "patch":    # can be parked between fetching the record and taking its guard
+                steps.append(dict(p=p, act="start", op=pending[p], want=None, at=n))
+                started.add(p)
         elif a == "BuildPredicate":
             steps.append(dict(p=p, act="start", op=pending[p], want="enter", at=n))
             started.add(p)
@@ -129,7 +134,11 @@ def witness_to_schedule(name, wfile):
             if pre[1]["todo"][p] == pre[1]["res"][p]:
                 steps.append(dict(p=p, act="advance", want=None, at=n))
         elif a == "Apply":
-            steps.append(dict(p=p, act="start", op=pending[p], want=None, at=n))
+            if p in started:
+                steps.append(dict(p=p, act="advance", want=None, at=n))
+            else:
+                steps.append(dict(p=p, act="start", op=pending[p], want=None, at=n))
+            started.discard(p)
         elif a == "IReindex" and pre[1]["pc"][p] == "gap":
             steps.append(dict(p=p, act="advance", want=None, at=n))
     for i, st in enumerate(steps):
